@@ -23,12 +23,17 @@ int k_from_integer(VT num, char* str, sz length, int base, char** oend);
 int k_from_chars(char const* first, char const* last, VT* value, int base, char const** optr);
 sz k_to_string(VT val, char* out);
 }
+// value under test: the full range of VT, or (ANCHOR given, wide types) the window ANCHOR + [-2^15, 2^15) with wrap-around
 static VT nd_T()
 {
+#ifdef ANCHOR
+    return VT(uint64_t(ANCHOR) + uint64_t(int64_t(int16_t(vf_nd_u16()))));
+#else
     if constexpr (sizeof(VT) == 1) return VT(vf_nd_u8());
     else if constexpr (sizeof(VT) == 2) return VT(vf_nd_u16());
     else if constexpr (sizeof(VT) == 4) return VT(vf_nd_u32());
     else return VT(vf_nd_u64());
+#endif
 }
 static int nd_base()
 {
@@ -41,6 +46,20 @@ static int nd_base()
 static bool neg(VT v) { if constexpr (std::is_signed_v<VT>) return v < 0; else return false; }
 // longest possible text of a VT in any base: all binary digits and a sign
 static constexpr sz MAXTXT = sizeof(VT) * 8 + 1;
+// longest text in the base(s) of this configuration (loops over a text are bounded by it)
+static constexpr sz txtmax()
+{
+#ifdef BASE
+    using U = std::make_unsigned_t<VT>;
+    U m = std::is_signed_v<VT> ? U(U(1) << (sizeof(VT) * 8 - 1)) : U(~U(0));
+    sz n = 0; while (m != 0) { m = U(m / U(BASE)); n++; }
+    return n + (std::is_signed_v<VT> ? 1 : 0);
+#else
+    return MAXTXT;
+#endif
+}
+static constexpr sz TXTMAX = txtmax();
+static constexpr sz posdigits10() { VT m = std::numeric_limits<VT>::max(); sz n = 0; while (m != 0) { m = VT(m / 10); n++; } return n; }
 // branch witnesses are demanded only where spec.py says the branch is reachable outside the known-finding regions
 // (queries decided through the exported-VC route, NOWIT, must not contain inner witnesses: only the end witness is checked there)
 #if LEN >= 1 && !defined(NOWIT)
@@ -64,16 +83,20 @@ static constexpr sz MAXTXT = sizeof(VT) * 8 + 1;
 #define WITNESS_TOO_LARGE_NT ((void)0)
 #endif
 
-// Reference text (plain quotient/remainder loop on the magnitude). Used as the oracle for the 32/64-bit types, where
+// Reference text (plain quotient/remainder loop on the value). Used as the oracle for the 32/64-bit types, where
 // std::to_chars (two digits per step, table lookups) against etl (one digit per step) is beyond the solver budget in
 // base 10/36. q_oracle_model proves ref_text == std::to_chars for all values and bases of the 8/16-bit types and for the
 // power-of-two bases of the wider ones; model_check.cpp compares it natively with std::to_chars on the wide types.
 extern "C" __attribute__((noinline)) sz ref_text(char* out, VT val, int base)
 {
-    using U = std::make_unsigned_t<VT>;
-    U u = neg(val) ? U(U(0) - U(val)) : U(val);
-    char tmp[sizeof(VT) * 8]; sz n = 0;
-    do { unsigned d = unsigned(u % U(base)); tmp[n++] = char(d < 10 ? '0' + d : 'a' + (d - 10)); u = U(u / U(base)); } while (u != 0);
+    // C++ division truncates toward zero, so for a negative value the remainders are <= 0 and their magnitudes are the
+    // digits of |val| (no negation of the most negative value needed)
+    char tmp[sizeof(VT) * 8]; sz n = 0; VT v = val;
+    do {
+        int d = int(v % VT(base)); if (d < 0) d = -d;
+        tmp[n++] = char(d < 10 ? '0' + d : 'a' + (d - 10));
+        v = VT(v / VT(base));
+    } while (v != 0);
     sz k = 0;
     if (neg(val)) out[k++] = '-';
     while (n != 0) out[k++] = tmp[--n];
@@ -95,7 +118,8 @@ Q q_oracle_model()
     char* e = (char*)vf_alloc(MAXTXT); auto full = std::to_chars(e, e + MAXTXT, val, base); sz n = sz(full.ptr - e);
     char* r = (char*)vf_alloc(MAXTXT); sz rn = ref_text(r, val, base);
     vf_assert(full.ec == std::errc{} && rn == n, "reference text length == std::to_chars");
-    for (sz i = 0; i < MAXTXT; i++) if (i < n) vf_assert(r[i] == e[i], "reference text == std::to_chars");
+    for (sz i = 0; i < TXTMAX; i++) if (i < n) vf_assert(r[i] == e[i], "reference text == std::to_chars");
+    vf_assert(n <= TXTMAX, "text length bound");
 }
 
 // to_chars(first, last, value, base) against std::to_chars for a buffer of exactly LEN bytes
@@ -122,7 +146,10 @@ static void check_to_chars(bool defbase)
             else vf_assert(buf[i] == orig[i], "to_chars leaves [ptr, last) untouched on success (as libstdc++ does)");
         }
     } else {
-        WITNESS_TOO_LARGE;
+        if (!defbase) WITNESS_TOO_LARGE;
+#if !defined(ANCHOR) && !defined(NOWIT)
+        if constexpr (LEN < posdigits10()) { if (defbase) vf_witness("too_large_base10"); }
+#endif
         vf_assert(ec == 1, "to_chars reports value_too_large when the std text does not fit");
         vf_assert(*op == buf + LEN, "to_chars ptr == last on value_too_large");
     }
